@@ -60,3 +60,8 @@ VARIANTS += [
     M('C16', 'refactor-accumulate-through-setdefault-append', E(PI, "                trues.add(parts[0])\n                falses.add(parts[1])", "                trues.add(parts[0])\n                falses.add(parts[1])\n                seen_formats = {}\n                seen_formats.setdefault('boolean', []).append(parts)"),
       kind='refactor'),
 ]
+
+VARIANTS += [
+    M('C16', 'titles-equal-to-the-name-dropped', E(CW, "                if isinstance(titles, list):\n                    field.altnames = titles", "                if isinstance(titles, list):\n                    field.altnames = [t for t in titles if t != name]"),
+      rule='C16-TITLES', key='altnames'),
+]
